@@ -121,14 +121,7 @@ def c15(tier):
         nl = 1 if rq["w"] == 8 else rq["w"] // 8
         sig = [[[v, [(int(x) >> (8 * i)) & 255 for i in range(nl)]] for v, x in asg] for asg in rq["sigma"]]
         traces.append({"id": rq["id"], "w": rq["w"], "sigma": sig, "events": a["events"]})
-    d = workdir("C15")
-    path = os.path.join(d, "traces.ndjson")
-    tlc.write_ndjson(path, traces)
-    res = tlc.run_tlc("Expr", env={"CASES": path}, workers=max(2, NCPU - 2), timeout=3600)
-    rep.add_tlc(res)
-    verdicts = {r["id"]: r for r in res.records if "verdict" in r}
-    if len(verdicts) != len(traces):
-        raise ToolError("Expr returned %d verdicts for %d traces\n%s" % (len(verdicts), len(traces), res.raw_tail))
+    verdicts = tlc.validate_in_chunks("Expr", traces, rep, "C15", chunk=3000)
     rep.coverage["traces_validated_against_impl"] = len(traces)
     nev = sum(len(t["events"]) for t in traces)
     rep.coverage["api_calls_validated"] = nev
